@@ -106,7 +106,10 @@ check(
 
 check(
     "C05",
-    runs=[dict(harness="C05_misuse", flavour="asan", forks=True, timeout={"quick": 1800, "thorough": 14400})],
+    runs=[dict(harness="C05_misuse", flavour="asan", forks=True, timeout={"quick": 1800, "thorough": 14400}),
+          # second opinion on the shipped -O2 build: a sample of the same programs under valgrind memcheck (uninitialised-value use,
+          # accesses beyond ASan's red zones)
+          dict(harness="C05_misuse", flavour="plain", forks=True, wrapper="memcheck", timeout={"quick": 1800, "thorough": 14400})],
     rule=("a table of call templates covering the public entry points of include/dsplib/*.h; each template enumerates boundary variants "
           "(array lengths from {0,1,2,3,n-1,n,n+1,2n} relative to the expected length, index lists with entries in -n..n+2 / duplicates / "
           "empty, slice right-hand sides of every length, wrong-length plan inputs, wrong frame sizes) and includes reuse of the object "
@@ -306,7 +309,7 @@ check(
           "input kinds with and without DC / Nyquist content: Re z == x (8*n*eps*max|x|), long-double DFT of z vanishes on the negative bins "
           "(32*n*eps), hilbert(x,m) == hilbert(pad/truncate); HilbertFilter lengths {31,32,51,64,101,128,201,300,401} x tw in "
           "{.005,.01,.02,.05,.1}: real part == input delayed by M/2 exactly under random framing, imaginary part == 90-degree shifted tone "
-          "within 1e-3*A for tones at the guard frequency max(2tw,6/M), at 0.5-guard and random in between; Tuner for fs in {8,...,1e5}, "
+          "within 1e-3*A for tones at the guard frequency max(2tw,6/M), at 0.5-guard and random in between; Tuner for fs in {8,...,65537,96000,1e5,192000,1e6}, "
           "integer / half-integer / random fractional / band-edge f, streams of 3..9*fs samples in random frames: every sample == "
           "x[k]*exp(2*pi*i*f*k/fs) with the phase reduced exactly in long double. distinct = (configuration, input bits)."),
     min_distinct={"quick": 1500, "thorough": 6000},
@@ -385,9 +388,9 @@ check(
           "real and complex, plus signals to 5000 samples with sampled shifts and sampling rates 1..48000: finddelay == d exactly, "
           "|gccphat.tau*fs - d| <= 0.5, delayseq == exact shift with zero fill, peakloc(real) == vertex of the parabola (long double); "
           "PreambleDetector with Zadoff-Chu (16..512) and m-sequence (31..511) preambles embedded at every offset modulo the frame length "
-          "(quick: a seeded stride of F/24), amplitudes -40..+20 dB, noise 30..60 dB below, thresholds 0.3..0.9, and preamble-free streams: "
+          "(quick: a seeded stride of F/24), amplitudes -70..+20 dB, noise 30..60 dB below, thresholds 0.3..0.9, and preamble-free streams: "
           "the first report is judged against a long-double normalised matched-filter statistic (frame and offset of the first sample above "
-          "1.07*thr, bitwise aligned preamble samples, score near 1 at the true end; silence when the statistic stays below 0.93*thr; "
+          "1.07*thr, bitwise aligned preamble samples, score >= 0.97 at the true end; silence when the statistic stays below 0.93*thr; "
           "streams entering the band first are skipped and counted). distinct = (configuration, signal bits)."),
     min_distinct={"quick": 700, "thorough": 4000},
     min_obs={"quick": {"delay_cases": 500, "detections_at_true_preamble_end": 100, "detector_streams_expecting_silence": 10},
